@@ -30,6 +30,7 @@ class Out:
 
 
 NONE_SV = SV(NONE)
+str_contains = z3.Function("str_contains", Val, Val, z3.BoolSort())       # substring test on opaque strings
 
 
 def sv_int(x):
@@ -397,6 +398,11 @@ class ExecBase:
     def e_BoolOp(s, n, p):
         def go(i, path):
             res = []
+            stc = source.static_test(n.values[i], s.cfg)
+            if stc is not None:         # interpreter-version operand decided by the configuration
+                if i == len(n.values) - 1 or stc != isinstance(n.op, ast.And):
+                    return [("ok", path, sv_bool(z3.BoolVal(stc)))]
+                return go(i + 1, path)
             for st, p1, v in s.ev(n.values[i], path):
                 if st != "ok" or i == len(n.values) - 1:
                     res.append((st, p1, v))
@@ -476,6 +482,11 @@ class ExecBase:
             return Or([s.eq(p, item, e) for e in tup]) if tup else BoolVal(False)
         if container.get("ty") == "dict":
             return p.dhas(container.t, item.t)
+        if container.get("ty") == "str":
+            from z3 import Contains
+            if s.precise_strings:
+                return Contains(s.to_string(p, container), s.to_string(p, item))
+            return str_contains(container.t, item.t)
         raise Unsupported(f"`in` on {container} @ line {getattr(node, 'lineno', '?')}")
 
     def e_BinOp(s, n, p):
@@ -569,7 +580,7 @@ class ExecBase:
         res = []
         if ok is not None:
             ty = s.unit.field_types.get(attr)
-            res.append(("ok", ok, SV(ok.getf(obj.t, attr), **({"ty": ty} if ty else {}))))
+            res.append(("ok", ok, SV(ok.getf(obj.t, attr), ty_key=attr, **({"ty": ty} if ty else {}))))
         if bad is not None:
             res.append(s.raise_new(bad, "AttributeError", site=f"{attr}@{getattr(node, 'lineno', '?')}"))
         return res
@@ -661,35 +672,124 @@ class ExecBase:
         return out
 
     def _comprehension(s, n, p, elt, kindname, lazy):
-        """[elt for x in seq] / (elt for x in seq): a map over one sequence, no filter: element j is elt[x := seq[j]]"""
-        if len(n.generators) != 1 or n.generators[0].ifs or n.generators[0].is_async:
+        """[elt for x in seq] / (elt for x in seq): a map over one sequence: element j is elt[x := seq[j]].
+           With `if` clauses: a fresh sequence with a ghost strictly increasing source-index map src (recorded in
+           p.ghost["filter:<line>"]): element j is elt[x := seq[src(j)]], the tests hold at src(j), and every source index
+           whose tests hold is hit (inverse map pos)."""
+        if len(n.generators) != 1 or n.generators[0].is_async:
             raise Unsupported(f"comprehension shape @ line {n.lineno}")
         gen = n.generators[0]
         def k(p1, vs):
             seqv = vs[0]
             def build(ex, pb, kname):
                 nn, elem, static = ex.iter_desc(pb, seqv, n)
-                base = pb.clone()
                 arr = fresh("comp_el", AV)
-                new = pb.new_seq(kname, length=nn, arr=arr)
-                def sch(pth, j):
+                def at_source(i):
+                    """(tests term, element term, side facts) with the target bound to source item i"""
                     tmp = base.clone()
-                    for o0 in ex.assign(gen.target, elem(tmp, j), tmp):
+                    tmp.pc.append(And(i >= 0, i < nn))      # only ever used under this guard
+                    if bulk[0]:
+                        tmp.h.alloc = z3.simplify(A0 + i * bulk[0])      # element i owns addresses -(A0+i*N+1) .. -(A0+i*N+N)
+                    last_tmp[0] = tmp
+                    for o0 in ex.assign(gen.target, elem(tmp, i), tmp):
                         if o0.kind != "normal":
                             raise Unsupported("comprehension target")
-                    n0 = len(tmp.pc)
-                    rs = ex.ev(elt, tmp)
-                    if len(rs) != 1 or rs[0][0] != "ok":
-                        raise Unsupported(f"comprehension element forks @ line {n.lineno}")
-                    facts = rs[0][1].pc[len(base.pc):]
-                    return And([Implies(And(j >= 0, j < nn), Select(arr, j) == rs[0][2].t)] +
-                               [Implies(And(j >= 0, j < nn), f) for f in facts])
+                    cond = []
+                    def only_ok(rs, what):
+                        # an element / test that may raise: the raising outcome is a separate outcome of the whole
+                        # comprehension (see may_raise below); the facts of the normal outcome include "did not raise"
+                        oks = [r for r in rs if r[0] == "ok"]
+                        if len(oks) != 1:
+                            raise Unsupported(f"comprehension {what} forks @ line {n.lineno}: {[(r[0], r[1].notes[-2:]) for r in rs]}")
+                        if len(rs) > 1:
+                            raised.append(True)
+                        return oks[0]
+                    for t in gen.ifs:
+                        r = only_ok(ex.ev(t, tmp), "test")
+                        tmp = r[1]
+                        cond.append(ex.truthy(tmp, r[2]))
+                    rs = [only_ok(ex.ev(elt, tmp), "element")]
+                    last_tmp[0] = rs[0][1]
+                    return And(cond) if cond else BoolVal(True), rs[0][2].t, rs[0][1].pc[len(base.pc) + 1:]
+                raised = []
+                bulk = [0]
+                last_tmp = [None]
+                if gen.ifs:
+                    m = fresh_int("comp_len")
+                    pb.pc += [m >= 0, m <= nn, nn >= 0]
+                    new = pb.new_seq(kname, length=m, arr=arr)
+                else:
+                    new = pb.new_seq(kname, length=nn, arr=arr)
+                base = pb.clone()
+                A0 = base.h.alloc
+                at_source(fresh_int("probe"))
+                nalloc = z3.simplify(last_tmp[0].h.alloc - A0)
+                if not z3.is_int_value(nalloc):
+                    raise Unsupported(f"comprehension element allocates a non-constant number of objects @ line {n.lineno}")
+                if nalloc.as_long() > 0:
+                    # the elements allocate: element i gets its own address block; the heap after the comprehension is the
+                    # base heap overridden on the bulk region [-(A0+nn*N), -A0) by what element (index of the address) wrote
+                    bulk[0] = N = nalloc.as_long()
+                    jv = fresh_int("cj")
+                    at_source(jv)
+                    T = last_tmp[0].h
+                    x = z3.Int(fresh_name("bulk_x"))
+                    jx = ((-x) - A0 - 1) / N
+                    inreg = And(x < -A0, x >= -(A0 + nn * N))
+                    def merged(Tarr, Farr, label):
+                        if Tarr.eq(Farr):
+                            return Farr
+                        # the element may write only into its own freshly allocated block
+                        y = fresh_int("y")
+                        own = And(y < -(A0 + jv * N), y >= -(A0 + jv * N + N))
+                        r = discharge(base.pc + [jv >= 0, jv < nn], Implies(Not(own), Select(Tarr, y) == Select(Farr, y)), ex.axioms)[0]
+                        if r != "PROVED":
+                            raise Unsupported(f"comprehension element writes outside its own allocations ({label}) @ line {n.lineno}")
+                        return z3.Lambda([x], If(inreg, Select(z3.substitute(Tarr, (jv, jx)), x), Select(Farr, x)))
+                    for fname in list(T.fields):
+                        pb.h.fields[fname] = merged(T.fields[fname], base.h.field(fname), fname)
+                    for comp in ("lo", "hi", "el", "dk", "dv", "dn"):
+                        setattr(pb.h, comp, merged(getattr(T, comp), getattr(base.h, comp), comp))
+                    pb.h.alloc = z3.simplify(A0 + nn * N)
+                outs = []
+                if raised:
+                    outs.append(ex.raise_new(pb.clone(), "Exception", site=f"comprehension@{n.lineno}"))
+                if not gen.ifs:
+                    def sch(pth, j):
+                        _, v, facts = at_source(j)
+                        return And([Implies(And(j >= 0, j < nn), Select(arr, j) == v)] +
+                                   [Implies(And(j >= 0, j < nn), f) for f in facts])
+                    pb.add_schema(new, sch)
+                    return outs + [("ok", pb, SV(new, ty=kname, comp_of=seqv))]
+                src = z3.Function(fresh_name("comp_src"), z3.IntSort(), z3.IntSort())
+                pos = z3.Function(fresh_name("comp_pos"), z3.IntSort(), z3.IntSort())
+                def sch(pth, j):
+                    c, v, facts = at_source(src(j))
+                    inr = And(j >= 0, j < m)
+                    return And([Implies(inr, And(src(j) >= 0, src(j) < nn, c, Select(arr, j) == v, pos(src(j)) == j)),
+                                Implies(And(inr, j + 1 < m), src(j) < src(j + 1)),
+                                Implies(And(inr, j >= 1), src(j - 1) < src(j))] +
+                               [Implies(inr, f) for f in facts])
                 pb.add_schema(new, sch)
-                return [("ok", pb, SV(new, ty=kname, comp_of=seqv))]
+                def complete(i):
+                    c, _, facts = at_source(i)
+                    return Implies(And(i >= 0, i < nn, c), And(pos(i) >= 0, pos(i) < m, src(pos(i)) == i))
+                pb.ghost[f"filter:{n.lineno}"] = dict(new=new, m=m, src=src, pos=pos, n=nn, source=seqv, complete=complete, elem=elem)
+                return outs + [("ok", pb, SV(new, ty=kname, comp_of=seqv))]
             if lazy:
                 return [("ok", p1, SV(fresh("genexp"), special=("genexp", build)))]
             return build(s, p1, kindname)
         return s.seq([gen.iter], p, k)
+
+    def e_DictComp(s, n, p):
+        """{k: v for ...}: an opaque fresh dict (contents not modelled); the iterable is evaluated for its effects"""
+        if len(n.generators) != 1:
+            raise Unsupported("dict comprehension shape")
+        def k(p1, vs):
+            d = p1.new_dict()
+            p1.havoc_dict(d)
+            return [("ok", p1, SV(d, ty="dict", dictcomp=True))]
+        return s.seq([n.generators[0].iter], p, k)
 
     def e_ListComp(s, n, p):
         return s._comprehension(n, p, n.elt, "list", False)
